@@ -297,6 +297,10 @@ def run_case(es, rec):
         t = CVR(id=f"t{len(sim.cvr_list) - j}", votes=votes, phantom=not cv.phantom, pool=rng.random() < 0.5,
                 tally_pool=rng.choice(("q1", "q2")))
         t.sample_num = cv.sample_num
+        # every other attribute a record may carry from earlier steps (the sampling probability left by a sample-size
+        # estimate, a stale sampled flag, a position in its batch): none of them is "which contests it lists"
+        t.p = rng.choice((0, 0.0, 1, 0.25, None))
+        t.card_in_batch = rng.choice((None, 0, j))
         twin.append(t)
     con2 = copy.copy(sim.contests)
     con2 = {cid: copy.copy(con) for cid, con in sim.contests.items()}
